@@ -18,6 +18,10 @@ def scenarios(rnd, quick):
         dict(pool="functor", nw=2, calls=[dict(n=4, chunk=2, ordered=False, abandon_after=1)]),
         dict(pool="factory", nw=1, quota=2, calls=[dict(n=3, chunk=1, ordered=True, abandon_after=1), dict(n=2, chunk=1, ordered=True)]),
         dict(pool="functor", nw=1, calls=[dict(n=3, chunk=1, ordered=True, lazy=True, abandon_after=2), dict(n=1, chunk=1, ordered=True)]),
+        # every result taken but StopIteration never requested (zip(data, pool.imap(data)))
+        dict(pool="functor", nw=2, calls=[dict(n=3, chunk=1, ordered=True, zipped=True), dict(n=2, chunk=1, ordered=True)]),
+        dict(pool="factory", nw=1, quota=2, calls=[dict(n=2, chunk=1, ordered=False, zipped=True), dict(n=2, chunk=1, ordered=True, zipped=True), dict(n=2, chunk=1, ordered=True)]),
+        dict(pool="functor", nw=2, rq=1, calls=[dict(n=4, chunk=2, ordered=True, lazy=True, zipped=True), dict(n=1, chunk=1, ordered=True)]),
     ]
     for _ in range(0 if quick else 10):
         n = rnd.randint(2, 6)
